@@ -28,6 +28,7 @@ def main():
     ap.add_argument("prop")
     ap.add_argument("--tier", default=os.environ.get("VERIF_TIER", "quick"), choices=["quick", "thorough"])
     ap.add_argument("--replay")
+    ap.add_argument("--replay-crash", help="internal: evaluate the case in FILE (clause+case JSON); used to confirm a crash")
     ap.add_argument("--shard", type=int, default=None)
     ap.add_argument("--nshards", type=int, default=None)
     ap.add_argument("--out")
@@ -49,6 +50,14 @@ def main():
             sys.stderr.write("HARNESS-ERROR build: %s\n" % e)
             return 2
 
+    if a.replay_crash:
+        from vf import harness
+        mod = load(prop)
+        rec = json.load(open(a.replay_crash))
+        clause = {c.name: c for c in mod.CLAUSES}[rec["clause"]]
+        st = harness.ClauseStats(clause.name)
+        harness.evaluate(clause, rec["case"], st, [])
+        return 0
     if a.replay:
         return replay(prop, a.replay)
     if a.shard is not None:
@@ -72,6 +81,21 @@ def replay(prop, path):
     mod = load(prop)
     rec = json.load(open(path))
     clause = {c.name: c for c in mod.CLAUSES}[rec["clause"]]
+    if rec.get("signature") == "crash":
+        # the recorded case killed the interpreter: replay it in a child process
+        tmp = path + ".crashreplay"
+        json.dump({"clause": rec["clause"], "case": rec["case"]}, open(tmp, "w"))
+        env2 = dict(os.environ)
+        env2["VERIF_NO_LASTCASE"] = "1"
+        r = subprocess.run([sys.executable, os.path.abspath(__file__), prop, "--replay-crash", tmp, "--shard", "0",
+                            "--nshards", "1"], cwd=VERIF, env=env2, capture_output=True, text=True)
+        os.unlink(tmp)
+        if r.returncode < 0:
+            print("VIOLATION property=%s replay=%s" % (prop, path))
+            print("  clause=%s interpreter killed by signal %d" % (clause.name, -r.returncode))
+            return 1
+        print("REPLAY-OK property=%s clause=%s (case no longer crashes)" % (prop, clause.name))
+        return 0
     known = harness.load_known(prop, getattr(mod, "MATCHERS", {}))
     st = harness.ClauseStats(clause.name)
     exc = harness.evaluate(clause, rec["case"], st, [])
@@ -98,6 +122,8 @@ def run_shard(prop, tier, seed, shard, nshards, out, clause_filter, scale):
         json.dump({"harness_error": "import: %r" % (e,)}, open(out, "w"))
         return 2
     known = harness.load_known(prop, getattr(mod, "MATCHERS", {}))
+    if out and not os.environ.get("VERIF_NO_LASTCASE"):
+        harness.LASTCASE = open(out + ".last", "w")
     results = []
     err = None
     want = set(clause_filter.split(",")) if clause_filter else None
@@ -179,12 +205,51 @@ def run_parent(prop, tier, seed, nshards, clause_filter, scale):
         procs.append((i, out, subprocess.Popen(cmd, cwd=VERIF, env=env, stdout=log, stderr=subprocess.STDOUT), log))
     harness_errors = []
     merged = {}
+    shard_timeout = float(os.environ.get("VERIF_SHARD_TIMEOUT", "2400" if tier == "quick" else "21600"))
+    deadline = time.time() + shard_timeout
+    crash_failures = []
     for i, out, p, log in procs:
-        rc = p.wait()
+        try:
+            rc = p.wait(timeout=max(1.0, deadline - time.time()))
+        except subprocess.TimeoutExpired:
+            p.kill()
+            p.wait()
+            rc = "timeout"
         log.close()
+        if rc == "timeout":
+            last = open(out + ".last").read()[:600] if os.path.exists(out + ".last") else "?"
+            harness_errors.append("INCONCLUSIVE: shard %d did not finish within %.0f s and was killed (never a verdict); "
+                                  "last case: %s" % (i, shard_timeout, last))
+            continue
         if not os.path.exists(out):
             tail = open(os.path.join(tmpd, "shard%d.log" % i)).read()[-2000:]
-            harness_errors.append("shard %d died rc=%s: %s" % (i, rc, tail))
+            confirmed = None
+            if isinstance(rc, int) and rc < 0 and os.path.exists(out + ".last") and os.path.getsize(out + ".last") > 0:
+                # the interpreter was killed by a signal: re-run the last case alone, in a fresh process
+                cmd = [sys.executable, os.path.abspath(__file__), prop, "--replay-crash", out + ".last",
+                       "--shard", "0", "--nshards", "1"]
+                env2 = dict(os.environ)
+                env2["VERIF_NO_LASTCASE"] = "1"
+                try:
+                    r2 = subprocess.run(cmd, cwd=VERIF, env=env2, capture_output=True, text=True, timeout=900)
+                    confirmed = r2.returncode < 0
+                    rc2 = r2.returncode
+                except subprocess.TimeoutExpired:
+                    confirmed, rc2 = False, "timeout"
+                if confirmed:
+                    rec = json.load(open(out + ".last"))
+                    d = os.path.join(harness.OUT, "replays", prop)
+                    os.makedirs(d, exist_ok=True)
+                    path = os.path.join(d, "%s-crash-%s.json" % (rec["clause"], harness.case_hash(rec["case"])))
+                    json.dump({"property": prop, "clause": rec["clause"], "case": rec["case"],
+                               "message": "interpreter killed by signal %d while evaluating this case (reproduced in a "
+                                          "fresh process: signal %d)" % (-rc, -rc2), "signature": "crash"},
+                              open(path, "w"), indent=1)
+                    crash_failures.append({"clause": rec["clause"], "replay": path, "reproduced": True, "signature": "crash",
+                                           "message": "interpreter killed by signal %d while evaluating this case; "
+                                                      "reproduced in a fresh process" % (-rc)})
+            if not confirmed:
+                harness_errors.append("shard %d died rc=%s (crash not reproducible from its last case): %s" % (i, rc, tail))
             continue
         data = json.load(open(out))
         if data.get("harness_error"):
@@ -212,7 +277,7 @@ def run_parent(prop, tier, seed, nshards, clause_filter, scale):
             m["exhaustive"] = m["exhaustive"] and c["exhaustive"]
             m["wall_s"] = max(m["wall_s"], c["wall_s"])
 
-    failures = []
+    failures = list(crash_failures)
     flaky = []
     for m in merged.values():
         for f in m["failures"]:
